@@ -50,6 +50,8 @@ type Program struct {
 	SSA    map[string]*ssa.Package
 	nFuncs int
 
+	argRoles map[argRoleKey][]argRoleSite
+
 	cgOnce sync.Once
 	cg     *callgraph.Graph
 
